@@ -527,6 +527,36 @@ fn generate(full: bool) -> String {
             g.case("derive-field-type-shapes", &format!("{}<'a>", name), &e, 3, &prelude);
         }
     }
+    // (iv-e) members whose type NAME suggests an access kind it does not have: a derived bundle called
+    // `WriteBundle…` that only reads, one called `ReadBundle…` that writes, type aliases called `ReadPair…` /
+    // `WriteExpectBoth…` for tuples that do both - what a struct declares follows its members' declarations,
+    // never their spelling
+    for k in &member_kinds {
+        for form in 0..3 {
+            let inner = format!("S{}", sid);
+            sid += 1;
+            let outer = format!("S{}", sid);
+            sid += 1;
+            let mut e = Exp::default();
+            let mut own = String::new();
+            ty(&T::Leaf(K::Write, 0), &mut own, &mut e);
+            let mut member = String::new();
+            ty(&T::Leaf(*k, 1), &mut member, &mut e);
+            let mut third = String::new();
+            ty(&T::Leaf(K::Read, 2), &mut third, &mut e);
+            let mut fourth = String::new();
+            ty(&T::Leaf(K::Write, 3), &mut fourth, &mut e);
+            let prelude = match form {
+                // bundles: the one that reads is called Write…, the one that writes is called Read…
+                0 => format!("#[derive(SystemData)]\n#[allow(dead_code)]\npub struct WriteBundle{i}<'a> {{\n    pub m: {member},\n    pub t: {third},\n}}\n#[derive(SystemData)]\n#[allow(dead_code)]\npub struct ReadBundle{i}<'a> {{\n    pub f: {fourth},\n}}\n#[derive(SystemData)]\n#[allow(dead_code)]\npub struct {o}<'a> {{\n    pub own: {own},\n    pub w: WriteBundle{i}<'a>,\n    pub r: ReadBundle{i}<'a>,\n}}\n", i = inner, o = outer, own = own, member = member, third = third, fourth = fourth),
+                // aliases of tuples
+                1 => format!("#[allow(dead_code)]\npub type ReadPair{i}<'a> = ({member}, {fourth});\n#[allow(dead_code)]\npub type WriteExpectBoth{i}<'a> = ({third}, {own});\n#[derive(SystemData)]\n#[allow(dead_code)]\npub struct {o}<'a>(pub ReadPair{i}<'a>, pub WriteExpectBoth{i}<'a>);\n", i = inner, o = outer, own = own, member = member, third = third, fourth = fourth),
+                // aliases of the plain kinds under the opposite name, reached through a module path
+                _ => format!("#[allow(dead_code)]\npub mod m{i} {{\n    use super::*;\n    pub type ReadOnly<'a> = {fourth};\n    pub type WriteOnly<'a> = {third};\n    pub type Reader<'a> = {own};\n}}\n#[derive(SystemData)]\n#[allow(dead_code)]\npub struct {o}<'a> {{\n    pub a: m{i}::ReadOnly<'a>,\n    pub b: m{i}::WriteOnly<'a>,\n    pub c: self::m{i}::Reader<'a>,\n    pub m: {member},\n}}\n", i = inner, o = outer, own = own, member = member, third = third, fourth = fourth),
+            };
+            g.case("derive-misleading-type-names", &format!("{}<'a>", outer), &e, 4, &prelude);
+        }
+    }
     // (iv-f) derived structs with MANY fields: around and beyond the largest tuple arity the library implements (26)
     for fields in [25usize, 26, 27, 28, 52, 53] {
         for form in 0..2 {
